@@ -4,6 +4,7 @@ import (
 	"fmt"
 	"sort"
 	"strings"
+	"sync/atomic"
 
 	"verif/simrt"
 )
@@ -92,6 +93,11 @@ func InitFS(s *simrt.Sim, w *WF) {
 	}
 }
 
+// InProgram: a simulated program is being executed right now (read by the
+// worker's wall-clock watchdog: a case that does not finish while this is unset
+// is stuck in the harness's own code - harness trouble, not a finding).
+var InProgram atomic.Bool
+
 func RunInc(w *WF, t *simrt.Tape, root *simrt.Inode, nextIno int, o IncOpts) *Inc {
 	cfg := simrt.Config{Strategy: o.Strategy, KillAt: o.KillAt, DiskFullAt: o.DiskFullAt, NoFDFrom: o.NoFDFrom, NoFDLen: o.NoFDLen, ClockGran: o.ClockGran, TraceOn: o.Trace, Race: o.Race,
 		PipeCap: o.PipeCap, NoEarlyTimers: o.NoEarlyTimers, TimerPick: 0.03, StepCap: o.StepCap, Env: map[string]string{}}
@@ -179,7 +185,9 @@ func RunInc(w *WF, t *simrt.Tape, root *simrt.Inode, nextIno int, o IncOpts) *In
 			}
 		}
 	}
+	InProgram.Store(true)
 	s.Run(func() { Program(w, inc.RT) })
+	InProgram.Store(false)
 	return inc
 }
 
